@@ -18,7 +18,7 @@ SHRINK_LISTS = [('items',), ('items', '*', 'inner', '*'), ('trailing',),
                 ('cuts',)]
 EXPECTED_PROBES = ['inside_fragmented', 'has_trailing', 'cut_inside_violation',
                    'violation_while_closing', 'offer_declined',
-                   'empty_first_fragment']
+                   'empty_first_fragment', 'ctl_before_new_data_frame']
 ASSUMPTIONS = ['close codes 1012-1014 and >= 5000 and RSV1 on control frames '
                'under compression are not generated (the property does not '
                'quantify over them)']
@@ -230,6 +230,13 @@ def violation_frames(case, enc):
         ST.emit(enc, rng.choice([1, 2]), b'start-of-message', fin=0)
         if rng.random() < 0.5:
             ST.emit(enc, 0, b'-more', fin=0)
+        if rng.random() < 0.5:
+            # a legal control frame in between must not make the stream
+            # forget that a message is open
+            c = rng.choice([9, 10])
+            ST.emit(enc, c, b'legal-ctl')
+            enc.expected.append(('ping' if c == 9 else 'pong', b'legal-ctl'))
+            enc.probes['ctl_before_new_data_frame'] += 1
         vmark()
         ST.emit(enc, rng.choice([1, 2]), pay, fin=rng.choice([0, 1]))
     elif cls in ('len_2_63', 'len_all_ones'):
